@@ -148,6 +148,30 @@ def check_regions(case):
     return OK(r > l and up > lo and n >= 2, "region")
 
 
+def check_sub_large(case):
+    """Patterns far beyond the semantic oracle's reach (8-14 points): the induced sub-pattern
+    and the region predicates are compared with the independent region arithmetic, which the
+    small-size checks validate against the semantic oracle."""
+    b, bsh = _mesh(case["B"])
+    S = sorted(case["S"])
+    B = _lib(case["B"])
+    sub = B.sub_mesh_pattern(S)
+    want = ref.sub_mesh(b, bsh, S)
+    if (tuple(sub.pattern), frozenset(sub.shading)) != want:
+        extra = sorted(frozenset(sub.shading) - want[1])
+        missing = sorted(want[1] - frozenset(sub.shading))
+        return BAD("sub_region_arithmetic_large", {"wrongly_shaded": extra[:4], "wrongly_unshaded": missing[:4]})
+    n = len(b)
+    for (l, lo, r, up) in case.get("rects", []):
+        want_free = not any(lo <= b[i] < up for i in range(l, r))
+        want_shaded = all((x, y) in bsh for x in range(l, r + 1) for y in range(lo, up + 1))
+        if B.is_pointfree((l, lo), (r, up)) != want_free:
+            return BAD("is_pointfree_large", {"rect": [l, lo, r, up], "want": want_free})
+        if B.is_shaded((l, lo), (r, up)) != want_shaded:
+            return BAD("is_shaded_large", {"rect": [l, lo, r, up], "want": want_shaded})
+    return OK(bool(sub.shading) and 0 < len(S) < n, f"sub_large_len{min(n, 14)}")
+
+
 def check_multi(case):
     """var-args forms: contains(*patts) = all occur, avoids(*patts) = none occurs"""
     b, bsh = _mesh(case["B"])
@@ -171,7 +195,7 @@ def check_multi(case):
     return OK(len(flags) >= 2 and any(flags) and not all(flags), "multi")
 
 
-CHECKS = {"pair": check_pair, "sub": check_sub, "regions": check_regions, "multi": check_multi}
+CHECKS = {"pair": check_pair, "sub": check_sub, "regions": check_regions, "multi": check_multi, "sub_large": check_sub_large}
 
 
 # ------------------------------------------------------------------ generators
@@ -256,6 +280,33 @@ def shard_exhaustive(acc, shard, nshards, full_b2):
 
 
 @st.composite
+def sub_large_cases(draw):
+    n = draw(st.integers(8, 14))
+    p = list(draw(gen.perm_of(n)))
+    # block shadings: a few fully shaded rectangles (so that merged regions are shaded) + noise
+    sh = set()
+    for _ in range(draw(st.integers(1, 4))):
+        l = draw(st.integers(0, n))
+        r = draw(st.integers(l, n))
+        lo = draw(st.integers(0, n))
+        up = draw(st.integers(lo, n))
+        sh |= {(x, y) for x in range(l, r + 1) for y in range(lo, up + 1)}
+    if draw(st.booleans()):
+        sh = {(x, y) for x in range(n + 1) for y in range(n + 1)} - set(map(tuple, draw(st.lists(st.tuples(st.integers(0, n), st.integers(0, n)), max_size=3))))
+    # few chosen points, leaving long gaps of dropped indices
+    k = draw(st.integers(0, 3))
+    S = sorted(draw(st.lists(st.integers(0, n - 1), min_size=k, max_size=k, unique=True)))
+    rects = []
+    for _ in range(3):
+        l = draw(st.integers(0, n))
+        r = draw(st.integers(l, n))
+        lo = draw(st.integers(0, n))
+        up = draw(st.integers(lo, n))
+        rects.append([l, lo, r, up])
+    return {"B": [p, sorted(list(c) for c in sh)], "S": S, "rects": rects}
+
+
+@st.composite
 def multi_cases(draw, max_a, max_b):
     first = draw(pair_cases(max_a, max_b))
     As = [first["A"]]
@@ -267,6 +318,7 @@ def multi_cases(draw, max_a, max_b):
 
 def shard_generated(acc, shard, nshards, n_pair, n_sub, n_reg, max_a, max_b):
     engine.hyp_run(acc, "multi", check_multi, multi_cases(max_a, max_b), max(20, n_pair // 3), shard)
+    engine.hyp_run(acc, "sub_large", check_sub_large, sub_large_cases(), max(20, n_sub // 2), shard)
     engine.hyp_run(acc, "pair", check_pair, pair_cases(max_a, max_b), n_pair, shard)
     engine.hyp_run(acc, "sub", check_sub, sub_cases(max_b), n_sub, shard)
     engine.hyp_run(acc, "regions", check_regions, region_cases(), n_reg, shard)
